@@ -60,6 +60,13 @@ int main(int argc, char **argv) {
                     case 4: write = rng.below(20) == 0; which = (int) rng.below(2); break;
                     default: write = rng.below(5) == 0; break;
                 }
+                if (a.mix == 4 && !write && rng.below(3) == 0) {
+                    // a read section of resource 1 nested inside a read section of the unrelated resource 0 (always in this
+                    // order, writers never hold two locks: no cycle)
+                    ReadLock outer {shared[0].resource};
+                    for (auto p : shared[0].payload) sink += p;
+                    section(shared[1], false, rng.below(2) == 0, rng, sink);
+                } else
                 section(shared[which], write, raw, rng, sink);
             }
             total += sink;
